@@ -135,6 +135,7 @@ class Recorder:
         self.fn_running: set = set()
         self.cb_ids: dict = {}         # path -> list of (inv, callback id)
         self.names: dict = {}
+        self.branch_out: dict = {}     # branch path -> list of (inv, "ok"|"err", repr) : what the branch body really returned / raised
 
     def log(self, ev, **kw):
         s = ds._CURRENT_SCHED
@@ -381,13 +382,17 @@ def build_handler(prog: dict, rec: Recorder):
                 try:
                     rec.gate(f"br:{bpath}")
                     inner = []
-                    run_nodes(bctx, branches[idx], bpath + "/", inner)
-                    spec = node.get("braise") or {}
-                    if str(idx) in spec or idx in spec:
-                        raise UserError(f"branch {bpath} raises")
-                    if node.get("large_item"):
-                        return ["L" * (CHECKPOINT_LIMIT + 10), inner]
-                    return inner
+                    try:
+                        run_nodes(bctx, branches[idx], bpath + "/", inner)
+                        spec = node.get("braise") or []
+                        if idx in spec or str(idx) in spec:
+                            raise UserError(f"branch {bpath} raises")
+                    except Exception as be:
+                        rec.branch_out.setdefault(bpath, []).append((rec.inv, "err", exc_repr(be)))
+                        raise
+                    res = ["L" * (CHECKPOINT_LIMIT + 10), inner] if (node.get("large_item") or idx in (node.get("large_items") or [])) else inner
+                    rec.branch_out.setdefault(bpath, []).append((rec.inv, "ok", typed_repr(res)))
+                    return res
                 finally:
                     rec.fn_running.discard(bpath)
                     rec.log("BranchExit", path=bpath)
